@@ -257,6 +257,7 @@ func cmdWorker(args []string) int {
 		if len(res.Violations) == 0 {
 			res.Plan = nil
 		}
+		res.ProcFrom, res.ProcStride = *from, *stride
 		_ = enc.Encode(&workerLine{Type: "run", Run: run, Result: res})
 	}
 	_ = enc.Encode(&workerLine{Type: "done"})
@@ -313,10 +314,27 @@ func cmdReplay(args []string) int {
 	}
 	k.WatchHang(func() string { return "replay " + *path })
 	eng := k.EngineByName(plan.Engine)
-	res, err := eng.Replay(plan, *verbose)
-	if err != nil {
-		fmt.Fprintln(os.Stderr, err)
-		return 2
+	var res *k.RunResult
+	if h := plan.History; h != nil && h.Stride > 0 {
+		// regenerate what the worker process had executed before this run, in this process
+		fmt.Printf("replaying runs %d, %d, ... %d of seed %d in one process\n", h.From, h.From+h.Stride, h.Upto, plan.Seed)
+		for run := h.From; run <= h.Upto; run += h.Stride {
+			r, err := eng.Generate(plan.Property, plan.Seed, run)
+			if err != nil {
+				fmt.Fprintln(os.Stderr, err)
+				return 2
+			}
+			res = r
+		}
+		if res == nil {
+			return 2
+		}
+	} else {
+		res, err = eng.Replay(plan, *verbose)
+		if err != nil {
+			fmt.Fprintln(os.Stderr, err)
+			return 2
+		}
 	}
 	hit := false
 	for _, v := range res.Violations {
@@ -434,6 +452,7 @@ func containsProp(list, prop string) bool {
 }
 
 type agg struct {
+	alts map[string][]*k.RunResult
 	runs       int
 	nontrivial map[string]bool
 	sigs       map[string]bool
@@ -454,7 +473,7 @@ type agg struct {
 }
 
 func newAgg() *agg {
-	return &agg{nontrivial: map[string]bool{}, sigs: map[string]bool{}, states: map[string]bool{}, stats: map[string]int{}, probes: map[string]int{}, statuses: map[string]int{},
+	return &agg{alts: map[string][]*k.RunResult{}, nontrivial: map[string]bool{}, sigs: map[string]bool{}, states: map[string]bool{}, stats: map[string]int{}, probes: map[string]int{}, statuses: map[string]int{},
 		viol: map[string]*k.RunResult{}, violCount: map[string]int{}, otherViol: map[string]int{}}
 }
 
@@ -488,6 +507,9 @@ func (a *agg) add(prop string, r *k.RunResult) {
 			a.violCount[fp]++
 			if _, ok := a.viol[fp]; !ok {
 				a.viol[fp] = r
+			} else if len(a.alts[fp]) < 6 && r.Plan != nil {
+				// further runs with the same fingerprint: tried when the first does not replay
+				a.alts[fp] = append(a.alts[fp], r)
 			}
 		} else {
 			a.otherViol[v.Rule+" "+strings.Join(v.Props, ",")]++
@@ -538,6 +560,12 @@ func cmdCheck(args []string) int {
 	if *prop == "C12" {
 		phases = []k.Engine{eng, k.EngineByName("L")}
 		shares = []float64{0.6, 0.4}
+	}
+	if *prop == "C18" {
+		// what reaches the poll transport comes from the production sender: the kernel engine adds the
+		// hand-off itself (address and bytes as the transport holds them until a listener takes them)
+		phases = []k.Engine{eng, k.EngineByName("K")}
+		shares = []float64{0.75, 0.25}
 	}
 	if *prop == "C16" {
 		// the store engine decides the command contract; the kernel engine adds the batches the
@@ -730,32 +758,77 @@ func cmdCheck(args []string) int {
 			exit = 1
 			continue
 		}
-		r := a.viol[fp]
+		// the first run with this fingerprint, then the alternates: a run may fail to replay in a
+		// fresh process when production code keeps process-wide state that an earlier run of the
+		// same worker left behind; another run with the same fingerprint may be self-contained
+		cands := append([]*k.RunResult{a.viol[fp]}, a.alts[fp]...)
+		var r *k.RunResult
 		var viol *k.Violation
-		for _, v := range r.Violations {
-			if v.Fingerprint() == fp {
-				viol = v
+		var path string
+		failures := 0
+		for _, c := range cands {
+			var cv *k.Violation
+			for _, v := range c.Violations {
+				if v.Fingerprint() == fp {
+					cv = v
+				}
+			}
+			cpath := filepath.Join(outDir, fmt.Sprintf("%s-%d-%d.json", *prop, *seed, c.Run))
+			ok := true
+			if c.Plan != nil {
+				plan := c.Plan
+				if !strings.HasPrefix(plan.Expect, "death:") {
+					plan.Expect = fp
+				}
+				plan = minimise(self, plan, fp)
+				plan.Note = fmt.Sprintf("rule %s: %s", cv.Rule, firstLines(cv.Detail, 6))
+				b, _ := json.MarshalIndent(plan, "", " ")
+				_ = os.WriteFile(cpath, b, 0o644)
+				// replaying the file in a fresh process must reproduce the violation
+				rc := exec.Command(self, "replay", "-plan", cpath)
+				rc.Env = append(os.Environ(), "TZ=UTC")
+				outb, _ := rc.CombinedOutput()
+				if !strings.Contains(string(outb), "VIOLATION property=") {
+					fmt.Fprintf(os.Stderr, "replay of %s did not reproduce %s:\n%s\n", cpath, fp, firstLines(string(outb), 20))
+					ok = false
+					failures++
+				}
+			}
+			if ok {
+				r, viol, path = c, cv, cpath
+				break
 			}
 		}
-		path := filepath.Join(outDir, fmt.Sprintf("%s-%d-%d.json", *prop, *seed, r.Run))
-		if r.Plan != nil {
-			plan := r.Plan
-			if !strings.HasPrefix(plan.Expect, "death:") {
-				plan.Expect = fp
+		if r == nil {
+			// last resort: the run together with everything its worker process executed before it
+			c := cands[0]
+			if c.Plan != nil && c.ProcStride > 0 {
+				hp := *c.Plan
+				hp.Expect = fp
+				hp.History = &k.PlanHistory{From: c.ProcFrom, Stride: c.ProcStride, Upto: c.Run}
+				hp.Note = "does not replay in a fresh process; replays after the runs its worker executed before it: production code keeps process-wide state across simulated servers"
+				cpath := filepath.Join(outDir, fmt.Sprintf("%s-%d-%d-history.json", *prop, *seed, c.Run))
+				b, _ := json.MarshalIndent(&hp, "", " ")
+				_ = os.WriteFile(cpath, b, 0o644)
+				rc := exec.Command(self, "replay", "-plan", cpath)
+				rc.Env = append(os.Environ(), "TZ=UTC")
+				outb, _ := rc.CombinedOutput()
+				if strings.Contains(string(outb), "VIOLATION property=") {
+					r, path = c, cpath
+					for _, v := range c.Violations {
+						if v.Fingerprint() == fp {
+							viol = v
+						}
+					}
+				}
 			}
-			plan = minimise(self, plan, fp)
-			plan.Note = fmt.Sprintf("rule %s: %s", viol.Rule, firstLines(viol.Detail, 6))
-			b, _ := json.MarshalIndent(plan, "", " ")
-			_ = os.WriteFile(path, b, 0o644)
-			// replaying the file in a fresh process must reproduce the violation
-			rc := exec.Command(self, "replay", "-plan", path)
-			rc.Env = append(os.Environ(), "TZ=UTC")
-			outb, _ := rc.CombinedOutput()
-			if !strings.Contains(string(outb), "VIOLATION property=") {
-				fmt.Fprintf(os.Stderr, "replay of %s did not reproduce %s:\n%s\n", path, fp, firstLines(string(outb), 20))
-				infra = true
-				continue
-			}
+		}
+		if r == nil {
+			infra = true
+			continue
+		}
+		if failures > 0 {
+			fmt.Fprintf(os.Stderr, "note: %d run(s) with fingerprint %s did not replay in a fresh process (process-wide state?), run %d does\n", failures, fp, r.Run)
 		}
 		fmt.Printf("violation: rule=%s kind=%s cond=%q frame=%s seen=%d run=%d\n  %s\n", viol.Rule, viol.Kind, viol.Cond, viol.Frame, a.violCount[fp], r.Run, firstLines(viol.Detail, 10))
 		fmt.Printf("VIOLATION property=%s replay=%s\n", *prop, path)
@@ -1032,7 +1105,25 @@ func cmdSelftest(args []string) int {
 	self, _ := os.Executable()
 	bad := 0
 	total := 0
-	for _, prop := range strings.Split(*props, ",") {
+	list := strings.Split(*props, ",")
+	for _, p := range list {
+		if p == "C12" {
+			// C12's second engine (production Loop in a synctest bubble)
+			list = append(list, "C12/L")
+		}
+		if p == "C16" || p == "C18" {
+			list = append(list, p+"/K")
+		}
+	}
+	for _, prop := range list {
+		engName := ""
+		if i := strings.Index(prop, "/"); i > 0 {
+			prop, engName = prop[:i], prop[i+1:]
+		}
+		eng := k.EngineFor(prop)
+		if engName != "" {
+			eng = k.EngineByName(engName)
+		}
 		hashes := map[int]map[string]bool{}
 		var mu sync.Mutex
 		var wg sync.WaitGroup
@@ -1041,9 +1132,9 @@ func cmdSelftest(args []string) int {
 				wg.Add(1)
 				go func(procs, w int) {
 					defer wg.Done()
-					cmd := exec.Command(self, "worker", "-verify-replay", "-property", prop, "-seed", fmt.Sprint(*seed), "-from", fmt.Sprint(w), "-stride", "4", "-max", fmt.Sprint(*runs/4))
+					cmd := exec.Command(self, "worker", "-engine", eng.Name(), "-verify-replay", "-property", prop, "-seed", fmt.Sprint(*seed), "-from", fmt.Sprint(w), "-stride", "4", "-max", fmt.Sprint(*runs/4))
 					cmd.Env = append(os.Environ(), "TZ=UTC", fmt.Sprintf("GOMAXPROCS=%d", procs))
-					if ext, ok := k.EngineFor(prop).(*extEngine); ok {
+					if ext, ok := eng.(*extEngine); ok {
 						cmd = exec.Command(ext.path(), "-test.run", "^TestWorker$", "-test.timeout", "6h")
 						cmd.Env = append(os.Environ(), "TZ=UTC", fmt.Sprintf("GOMAXPROCS=%d", procs), "VERIF_P_MODE=worker", "VERIF_P_VERIFY_REPLAY=1", "VERIF_P_PROP="+prop, "VERIF_P_SEED="+fmt.Sprint(*seed), "VERIF_P_FROM="+fmt.Sprint(w), "VERIF_P_STRIDE=4", "VERIF_P_MAX="+fmt.Sprint(*runs/4))
 					}
@@ -1073,7 +1164,7 @@ func cmdSelftest(args []string) int {
 			}
 			if len(hs) != 1 || div {
 				bad++
-				fmt.Printf("NONDETERMINISM property=%s run=%d hashes=%v\n", prop, run, hs)
+				fmt.Printf("NONDETERMINISM property=%s engine=%s run=%d hashes=%v\n", prop, eng.Name(), run, hs)
 			}
 		}
 	}
